@@ -242,3 +242,48 @@ Proof.
       destruct (last_of k r) as [x|]; [reflexivity|].
       destruct (N.eqb_spec s k) as [->|Hne]; [apply get_set_same|apply get_set_other; congruence].
 Qed.
+
+(* ---- constructor outputs are well-formed images; the retained tags are among the supplied ones ---- *)
+Lemma Val_inj {A} (a b : A) : Val a = Val b -> a = b.
+Proof. congruence. Qed.
+
+Lemma boxed_wf p k slices pad img : is_dst k = true -> 8 + content_len slices < pow2_32 -> 8 <= len pad ->
+  boxed p k slices pad = Val img -> wf_img img.
+Proof.
+  intros Hd Hs Hp H. rewrite boxed_closed in H by assumption.
+  set (ts := 8 + content_len slices) in *.
+  destruct (ts <? kind_base k); [discriminate|]. destruct (negb _); [discriminate|]. apply Val_inj in H. subst img.
+  assert (E4 : slice (enc32 (kind_typ k) ++ enc32 ts ++ List.concat slices ++ slice pad 0 (round8 ts - ts)) 4 4 = enc32 ts).
+  { rewrite <- (len_enc32 (kind_typ k)) at 2. apply slice_app_mid. rewrite len_enc32. reflexivity. }
+  unfold wf_img. rewrite E4, le_enc32 by exact Hs. split; [unfold ts; lia|].
+  rewrite !len_app, !len_enc32, len_concat, len_slice. fold (content_len slices).
+  pose proof (round8_ge ts). pose proof (round8_lt ts). unfold ts in *. lia.
+Qed.
+
+Lemma in_imgs_of slot calls x : In x (imgs_of slot calls) -> In x (map snd calls).
+Proof.
+  unfold imgs_of. intros H. apply in_map_iff in H. destruct H as ([s i] & <- & Hin). apply filter_In in Hin.
+  apply in_map_iff. exists (s, i). split; [reflexivity|apply Hin].
+Qed.
+
+Lemma last_of_in slot calls x : last_of slot calls = Some x -> In x (map snd calls).
+Proof.
+  unfold last_of. destruct (rev (imgs_of slot calls)) as [|y l] eqn:E; [discriminate|]. intros H. injection H as ->.
+  apply (in_imgs_of slot). apply in_rev. rewrite E. left. reflexivity.
+Qed.
+
+Lemma retained_subset calls b' (P : list byte -> Prop) :
+  (forall img, In (22, img) calls -> is_custom_img img = true) ->
+  run_calls builder_new calls = Val b' -> Forall P (map snd calls) -> Forall P (builder_slices b').
+Proof.
+  intros Hc Hr HP. destruct (run_calls_spec calls builder_new Hc) as (b2 & E & Am & As & Ac & Ag).
+  rewrite Hr in E. injection E as <-. cbn [builder_new b_modules b_smbios b_custom b_single app] in *.
+  rewrite Forall_forall in HP.
+  assert (Hslot : forall k, repeatable k = false -> Forall P (opt_list (get_slot (b_single b') k))).
+  { intros k Hk. rewrite (Ag k Hk). cbn [get_slot]. destruct (last_of k calls) as [x|] eqn:El; cbn [opt_list]; [|constructor].
+    constructor; [apply HP; apply (last_of_in k); exact El|constructor]. }
+  assert (Hl : forall slot, Forall P (imgs_of slot calls)).
+  { intros slot. apply Forall_forall. intros x Hx. apply HP. apply (in_imgs_of slot). exact Hx. }
+  unfold builder_slices. rewrite Am, As, Ac.
+  repeat (apply Forall_app; split); try (apply Hslot; reflexivity); apply Hl.
+Qed.
